@@ -104,10 +104,11 @@ class World:
 
 
 def cues(cs):
-    if not isinstance(cs, Stub) or not isinstance(cs.attrs.get("_captions"), dict) or len(cs.attrs["_captions"]) != 1:
+    from .foldutil import captions_by_language
+    by_lang = captions_by_language(cs, what="chain: a reader's result")
+    if len(by_lang) != 1:
         raise AnalysisError("chain: a reader's folded result is not a one-language CaptionSet")
-    lst = list(cs.attrs["_captions"].values())[0]
-    lst = lst.attrs["__list__"] if isinstance(lst, Stub) else lst
+    lst = list(by_lang.values())[0]
     out = []
     for c in lst:
         text = ""
